@@ -73,27 +73,36 @@ def run(ctx):
                     (dotted(node.targets[0].value) or "").startswith("self.") and dotted(node.targets[0].value)[5:] in STORES:
                 fld = dotted(node.targets[0].value)[5:]
                 st = fl.state_at(node)
-                conds = {norm(pretty(f.xkey)): f.pol for f in st.facts if f.kind == "cond"}
-                val = norm(pretty(unparse(fl.expand(node.value, st))))
-                key = norm(pretty(unparse(fl.expand(node.targets[0].slice, st))))
+                if len(m.params) < 2:
+                    raise AnalysisError(f"C09: {m.short()} lost its certificate parameter")
+                cert = m.params[1]
+                facts = sem.facts(fl, node) | SU.branch_atoms(fl, node)
+                xval = fl.expand(node.value, st)
+                xkey = fl.expand(node.targets[0].slice, st)
                 loc = f"{m.module.rel}:{node.lineno}"
                 ctx.ob("C09.admission", m.short(), f"{fld}:stores-the-checked-certificate",
-                       val == "certificate" and key == "certificate.as_hashedid8()",
-                       f"stores `{val}` under `{key}`", loc)
-                ver = conds.get("certificate.verify(self.ecdsa_backend)") is True
+                       sem.same(xval, cert) and sem.same(xkey, f"{cert}.as_hashedid8()"),
+                       f"stores `{pretty(unparse(xval))}` under `{pretty(unparse(xkey))}`", loc)
+                ver = sem.holds(facts, f"{cert}.verify(self.ecdsa_backend)")
                 ctx.ob("C09.admission", m.short(), f"{fld}:verified", ver,
                        "admission " + ("only after certificate.verify(backend)" if ver else "without an established certificate.verify(backend)"), loc)
                 if fld != "known_root_certificates":
-                    iss = conds.get("self.get_issuer_certificate(certificate)isNone") is False
+                    iss = sem.holds(facts, f"self.get_issuer_certificate({cert}) is not None")
                     ctx.ob("C09.admission", m.short(), f"{fld}:issuer-known", iss,
                            "admission " + ("only when the issuer is found in the library's own dictionaries" if iss else
                                            "without requiring a known issuer"), loc)
     ctx.floor("C09.admission", 10)
     gi = lib.methods["get_issuer_certificate"]
     fl = ctx.flows.get(gi)
+    if len(gi.params) < 2:
+        raise AnalysisError("C09: get_issuer_certificate lost its certificate parameter")
+    digest = f"{gi.params[1]}.certificate['issuer'][1]"
     for j, (k, s, st) in enumerate([e for e in fl.exits if e[0] == "return"]):
-        u = norm(pretty(unparse(fl.expand(s.value, st))))
-        ok = u == "None" or re.fullmatch(r"self\.known_(root_certificates|authorization_authorities)\[certificate\.certificate\['issuer'\]\[1\]\]", u)
+        x = fl.expand(s.value, st) if s.value is not None else ast.Constant(None)
+        ok = isinstance(x, ast.Constant) and x.value is None
+        for d in ("self.known_root_certificates", "self.known_authorization_authorities"):
+            ok = ok or sem.same(x, f"{d}[{digest}]") or sem.same(x, f"{d}.get({digest})")
+        u = pretty(unparse(x))
         ctx.ob("C09.admission", gi.short(), f"return#{j}", bool(ok), f"issuer lookup returns `{u[:90]}` (must come from the root / AA dictionaries)",
                f"{gi.module.rel}:{s.lineno}")
     # ---- what verify() establishes
@@ -102,11 +111,11 @@ def run(ctx):
     fl = ctx.flows.get(needed)
     for k, s, st in fl.exits:
         if k == "return":
-            calls = {pretty(f.xkey) for f in st.facts if f.kind == "call"}
-            both = any("get_list_of_psid_from_cert_issue_permissions()" in c for c in calls) and \
-                any("get_list_of_psid_from_app_permissions()" in c for c in calls)
-            ctx.ob("C09.verify-conjuncts", needed.short(), "needed=issue+app", both,
-                   "the permissions a subject needs from its issuer cover BOTH its certIssuePermissions and its appPermissions",
+            missing = [h for h in ("get_list_of_psid_from_cert_issue_permissions", "get_list_of_psid_from_app_permissions")
+                       if not _flows_into_result(P, fl, needed, s, st, h)]
+            ctx.ob("C09.verify-conjuncts", needed.short(), "needed=issue+app", not missing,
+                   "the permissions a subject needs from its issuer cover BOTH its certIssuePermissions and its appPermissions"
+                   + ("" if not missing else f" - not part of the result on every path: {missing}"),
                    f"{needed.module.rel}:{s.lineno}")
     # the helper bodies the containment conjunct relies on (each checked once, as its own obligation)
     hall = P.func(f"{CERT}.certificate_has_all_permissions")
@@ -144,18 +153,38 @@ def run(ctx):
     # ---- message acceptance: PSID within the ticket's permissions, generation time within validity
     vf = P.func(f"{VS}.verify")
     fl = ctx.flows.get(vf)
+    if len(vf.params) < 2:
+        raise AnalysisError("C09: VerifyService.verify lost its request parameter")
+    root = SU.signed_root(vf.params[1])
     for i, c in enumerate(success_sites(ctx, vf)):
         st = fl.state_at(c)
-        conds = {norm(pretty(f.xkey)): f.pol for f in st.facts if f.kind == "cond"}
         loc = f"{vf.module.rel}:{c.lineno}"
-        psid_ok = any(v and re.search(r"in(authorization_ticket)\.get_list_of_(its_aid|psid_from_app_permissions)\(\)", k) and "psid" in k
-                      for k, v in conds.items())
+        true_facts = [f.xnode for f in st.facts if f.kind == "cond" and f.pol]
+        # the ticket(s) whose chain verified on this path: receivers of a true `<T>.verify(self.backend)`
+        tickets = {sem.cx(n.func.value) for n in true_facts if isinstance(n, ast.Call) and isinstance(n.func, ast.Attribute)
+                   and n.func.attr == "verify" and len(n.args) == 1 and sem.same(n.args[0], "self.backend")}
+        psid_ok = False
+        for n in true_facts:
+            if isinstance(n, ast.Compare) and len(n.ops) == 1 and isinstance(n.ops[0], ast.In) and SU.header_field(n.left, root) == "psid":
+                r = n.comparators[0]
+                if isinstance(r, ast.Call) and isinstance(r.func, ast.Attribute) and not r.args and \
+                        r.func.attr in ("get_list_of_its_aid", "get_list_of_psid_from_app_permissions") and sem.cx(r.func.value) in tickets:
+                    psid_ok = True
         ctx.ob("C09.msg-psid", vf.short(), f"success#{i}", psid_ok,
                "SUCCESS requires the message's PSID among the signing ticket's appPermissions" if psid_ok else
                "SUCCESS is reported without comparing the message's PSID (headerInfo.psid) with the signing ticket's "
                "appPermissions: a CAM-only ticket can sign a DENM (PSID 37) and is accepted", loc)
-        val_ok = any("validityPeriod" in k and "generationTime" in k for k in conds) or \
-            any(re.search(r"authorization_ticket\.(is_valid_at|check_validity|covers_time)\(", k) and v for k, v in conds.items())
+        val_ok = False
+        for f in st.facts:
+            if f.kind != "cond":
+                continue
+            reads_time = any(SU.header_field(x, root) == "generationTime" for x in ast.walk(f.xnode))
+            reads_validity = any(isinstance(x, ast.Subscript) and isinstance(x.slice, ast.Constant) and x.slice.value == "validityPeriod"
+                                 and any(sem.cx(y) in tickets for y in ast.walk(x.value) if isinstance(y, ast.expr)) for x in ast.walk(f.xnode))
+            on_ticket = f.pol and isinstance(f.xnode, ast.Call) and isinstance(f.xnode.func, ast.Attribute) and \
+                sem.cx(f.xnode.func.value) in tickets
+            if reads_time and (reads_validity or on_ticket):
+                val_ok = True
         ctx.ob("C09.msg-validity", vf.short(), f"success#{i}", val_ok,
                "SUCCESS requires generationTime within the ticket's validityPeriod" if val_ok else
                "SUCCESS is reported without comparing headerInfo.generationTime with the signing ticket's validityPeriod: a "
@@ -167,19 +196,26 @@ def run(ctx):
     signs = [c for c in P.calls_in(ic) if isinstance(c.func, ast.Attribute) and c.func.attr == "sign_certificate"]
     for j, c in enumerate(signs):
         st = fl.state_at(c)
-        conds = {norm(pretty(f.xkey)): f.pol for f in st.facts if f.kind == "cond"}
-        selfsigned = conds.get("certificate.certificate_is_self_signed()") is True
-        guarded = conds.get("certificate.check_issuer_has_subject_permissions(self)") is True and \
-            conds.get("self.check_enough_min_chain_length_for_issuer()") is True
+        if len(ic.params) < 3:
+            raise AnalysisError("C09: issue_certificate lost a parameter")
+        cert = ic.params[2]
+        facts = sem.facts(fl, c) | SU.branch_atoms(fl, c)
+        selfsigned = sem.holds(facts, f"{cert}.certificate_is_self_signed()")
+        guarded = sem.holds(facts, f"{cert}.check_issuer_has_subject_permissions(self)") and \
+            sem.holds(facts, "self.check_enough_min_chain_length_for_issuer()")
         ctx.ob("C09.issuing", ic.short(), f"sign#{j}", selfsigned or guarded,
                "signature " + ("for a self-signed subject" if selfsigned else
                                "only when the subject's permissions are contained in the issuer's and the chain-length budget allows"
                                if guarded else "WITHOUT the permission-containment / chain-length guards"),
                f"{ic.module.rel}:{c.lineno}")
         if guarded:
-            arg = norm(pretty(unparse(fl.expand(c.args[1], st))))
-            ctx.ob("C09.issuing", ic.short(), f"sign#{j}:narrowed", arg == "certificate.set_chain_length_issue_permissions(self).set_issuer(self)",
-                   f"certificate signed = `{arg[:100]}` (chain length narrowed, issuer set)", f"{ic.module.rel}:{c.lineno}")
+            args = SU.bind_args(P.func(f"{OWN}.sign_certificate"), c)
+            arg = fl.expand(args["certificate"], st) if "certificate" in args else None
+            ok = arg is not None and (sem.same(arg, f"{cert}.set_chain_length_issue_permissions(self).set_issuer(self)") or
+                                      sem.same(arg, f"{cert}.set_chain_length_issue_permissions(issuer=self).set_issuer(issuer=self)"))
+            ctx.ob("C09.issuing", ic.short(), f"sign#{j}:narrowed", ok,
+                   f"certificate signed = `{pretty(unparse(arg))[:100] if arg is not None else None}` (chain length narrowed, issuer set)",
+                   f"{ic.module.rel}:{c.lineno}")
     ce = P.func(f"{OWN}.check_enough_min_chain_length_for_issuer")
     ok, why = budget_rule(ctx, ce)
     ctx.ob("C09.issuing", ce.short(), "budget", ok,
@@ -242,6 +278,36 @@ def run(ctx):
     ctx.ob("C09.issuing", sc.short(), "exhausted-removed", ok_rem,
            "issuing permissions whose budget reached 0 are removed after the decrement", sc.loc)
     ctx.floor("C09.issuing", 6)
+
+
+def _flows_into_result(P, fl, fi, ret, st, helper: str) -> bool:
+    """The list `self.<helper>()` returns is part of what `ret` returns: the call occurs in the (expanded) returned
+    expression, or is handed to extend / += on the returned variable on every path (must-call)."""
+    def is_helper(c):
+        return isinstance(c, ast.Call) and isinstance(c.func, ast.Attribute) and c.func.attr == helper and sem.same(c.func.value, "self") \
+            and not c.args and not c.keywords
+    x = fl.expand(ret.value, st) if ret.value is not None else None
+    if x is not None and any(is_helper(n) for n in ast.walk(x)):
+        # the definition the result is built from mentions the helper's list (elements survive list() / dict.fromkeys dedup)
+        return True
+    var = None
+    if isinstance(ret.value, ast.Name):
+        var = ret.value.id
+    elif x is not None:
+        inner = [n for n in ast.walk(ret.value) if isinstance(n, ast.Name) and n.id in st.defs]
+        var = inner[0].id if len({n.id for n in inner}) == 1 else None
+    if var is None:
+        return False
+    for f in st.facts:
+        if f.kind == "call" and isinstance(f.node, ast.Call) and isinstance(f.node.func, ast.Attribute) and \
+                f.node.func.attr == "extend" and isinstance(f.node.func.value, ast.Name) and f.node.func.value.id == var and \
+                len(f.node.args) == 1 and isinstance(f.xnode, ast.Call) and f.xnode.args and isinstance(f.xnode.func, ast.Attribute) and \
+                any(is_helper(n) for n in ast.walk(f.xnode.args[0])):
+            # the list that was extended is the one the result is built from
+            recv = sem.cx(f.xnode.func.value)
+            if x is not None and any(isinstance(n, ast.expr) and sem.cx(n) == recv for n in ast.walk(x)):
+                return True
+    return False
 
 
 def budget_rule(ctx, ce):
